@@ -248,6 +248,22 @@ def run(repo, rep, tier):
         raise AnalysisError("smooth_spec: is_circular test not found")
     c = circ[0].value
     lhs = c.left
+    # the spacing entering the test is the exact spacing of the grid: no rounding / truncation of the differences (a 2.5 degree grid rounded to whole degrees
+    # misses the tenth-of-a-bin tolerance and is no longer recognised as a full circle)
+    for d_ in ast.walk(fi.node):
+        if isinstance(d_, ast.Call) and call_name(d_).split(".")[-1] == "diff" and d_.args and unparse(d_.args[0]) in ("dirs", "dsout[attrs.DIRNAME].values", "dsout.dir.values"):
+            p_ = getattr(d_, "_parent", None)
+            hops = 0
+            while p_ is not None and hops < 4:
+                nm_ = p_.attr if isinstance(p_, ast.Attribute) else (call_name(p_).split(".")[-1] if isinstance(p_, ast.Call) else "")
+                if nm_ in ("round", "rint", "floor", "ceil", "trunc", "around", "astype") and (nm_ != "astype" or (isinstance(p_, ast.Attribute) or "int" in unparse(p_))):
+                    if nm_ != "astype" or "int" in unparse(getattr(p_, "_parent", p_)):
+                        rep.fail("R-C16-2", fi.file, d_.lineno, fi.qualname, unparse(getattr(p_, "_parent", p_))[:90],
+                                 "the direction spacing is rounded before the full-circle test: fine grids (2.5, 1.25, 0.5 degrees) then fail the tenth-of-a-bin "
+                                 "tolerance, get no circular padding and the window does not wrap at the seam", anchor="smooth_spec:rounded-spacing")
+                        break
+                p_ = getattr(p_, "_parent", None)
+                hops += 1
     if isinstance(lhs, ast.Call) and call_name(lhs) in ("abs", "np.abs", "np.absolute") and isinstance(c.ops[0], ast.Lt) and "360" in unparse(lhs):
         rep.ok("R-C16-2", f"{fi.file}:{circ[0].lineno} smooth_spec", unparse(circ[0])[:100], "|coverage - 360| below a tenth of a bin")
     else:
